@@ -382,6 +382,7 @@ struct NodeOpts {
     uint64_t blocktree_cache{0};
     uint64_t batch_bytes{0};    // -dbbatchsize, 0 = default
     bool journal{false};
+    bool use_xor{true};
 };
 
 struct Node {
@@ -421,7 +422,7 @@ struct Node {
         if (o.batch_bytes) cm.coins_view.batch_write_bytes = o.batch_bytes;
         node::BlockManager::Options bm{
             .chainparams = params,
-            .use_xor = true,
+            .use_xor = o.use_xor,
             .prune_target = o.prune == 0 ? 0 : (o.prune == 1 ? uint64_t{1} << 20 : node::BlockManager::PRUNE_TARGET_MANUAL),
             .fast_prune = true,
             .blocks_dir = o.dir / "blocks",
@@ -498,14 +499,15 @@ struct RecParams {
     int base_blocks;
     int run_steps;
     int prune;
+    int maxtx;
 };
 RecParams RecOf(int rec, int64_t steps_override)
 {
     RecParams p{};
     switch (rec) {
-    case 1: p = {115, 150, 0}; break;
-    case 2: p = {115, 130, 0}; break;
-    default: p = {330, 170, 1}; break;
+    case 1: p = {115, 150, 0, 10}; break;
+    case 2: p = {115, 130, 0, 10}; break;
+    default: p = {330, 170, 1, 24}; break;
     }
     if (steps_override > 0) p.run_steps = static_cast<int>(steps_override);
     return p;
@@ -564,7 +566,7 @@ VH_CMD(crashload)
         uint256 tip = Params().GenesisBlock().GetHash();
         if (NodeTip(n) != tip) throw std::runtime_error("init: fresh datadir does not start at genesis");
         for (int i = 0; i < rp.base_blocks; ++i) {
-            const BRec& r = gen.Build(tip, i >= 100 ? 6 : 0);
+            const BRec& r = gen.Build(tip, i >= 100 ? rp.maxtx : 0);
             Mark(BlockMark("B", r));
             set_clock();
             Submit(n, r);
@@ -582,7 +584,7 @@ VH_CMD(crashload)
 
     // ---- phase run: regenerate the base chain in the model only (same seed => same blocks), then restart the node on the directory
     uint256 tip = Params().GenesisBlock().GetHash();
-    for (int i = 0; i < rp.base_blocks; ++i) tip = gen.Build(tip, i >= 100 ? 6 : 0).hash;
+    for (int i = 0; i < rp.base_blocks; ++i) tip = gen.Build(tip, i >= 100 ? rp.maxtx : 0).hash;
     set_clock();
     Mark("S restart");
     StartNode(n);
@@ -616,7 +618,7 @@ VH_CMD(crashload)
         Mark("S reorg " + std::to_string(depth));
         uint256 b = fork;
         for (int i = 0; i < depth + 1 + extra; ++i) {
-            const BRec& r = gen.Build(b, 6);
+            const BRec& r = gen.Build(b, rp.maxtx);
             Mark(BlockMark("B", r));
             set_clock();
             Submit(n, r);
@@ -667,8 +669,8 @@ VH_CMD(crashload)
         // R1 must contain at least two reorgs: force them at fixed steps if chance did not
         if (rec == 1 && reorgs_done < 2 && (step == rp.run_steps / 3 || step == (2 * rp.run_steps) / 3)) op = 2;
         switch (op) {
-        case 0: extend(1, 6); break;
-        case 1: extend(2 + static_cast<int>(rng.below(4)), 6); break;
+        case 0: extend(1, rp.maxtx); break;
+        case 1: extend(2 + static_cast<int>(rng.below(4)), rp.maxtx); break;
         case 2: {
             const int depth = 2 + static_cast<int>(rng.below(rec == 1 ? 2 : 5));
             // in large-cache mode make sure the on-disk coins are at the old branch for part of the reorgs
@@ -887,6 +889,122 @@ VH_CMD(recover)
     res.b("ok", failed.empty()).str("failed", failed).str("detail", detail).i("replay_runs", replay_runs).i("rollforward", rollforward).i("rollback", rollback)
         .u("flush_errors", n.notif.flush.size());
     vh::log().rec(res);
+    return 0;
+}
+
+// C17, third clause: a block whose stored bytes were corrupted is never connected. Per case: node on a real directory, chain with
+// transactions; per trial: disconnect the last d blocks (InvalidateBlock), corrupt one stored byte of one of them, let the node
+// reconnect (ResetBlockFailureFlags + ActivateBestChain), observe whether the victim ends up on the active chain; restore.
+VH_CMD(corruptconnect)
+{
+    const int trials = static_cast<int>(args.geti("trials", 12));
+    for (uint64_t c = args.from; c < args.to; ++c) {
+        vh::set_case(c);
+        SetMockTime(1296688602 + 1000000);
+        NodeOpts o;
+        o.journal = false;
+        o.use_xor = c & 1;
+        o.prune = 0;
+        const char* tmp = std::getenv("TMPDIR");
+        o.dir = fs::PathFromString(std::string(tmp ? tmp : "/var/tmp") + "/cc" + std::to_string(c) + "_" + std::to_string(::getpid()));
+        fs::remove_all(o.dir);
+        fs::create_directories(o.dir / "blocks");
+        {
+            Node n(o);
+            Gen gen(Params(), args.seed, 5000 + c);
+            StartNode(n);
+            uint256 tip = Params().GenesisBlock().GetHash();
+            const int nblocks = 104 + 10;
+            for (int i = 0; i < nblocks; ++i) {
+                const BRec& r = gen.Build(tip, i >= 100 ? 10 : 0);
+                SetMockTime(gen.m_max_time + 60);
+                Submit(n, r);
+                tip = r.hash;
+            }
+            if (NodeTip(n) != tip) throw std::runtime_error("corruptconnect: chain not built");
+            Chainstate& cs = n.chainman->ActiveChainstate();
+            vh::Rng& rng = gen.m_rng;
+            for (int t = 0; t < trials; ++t) {
+                const int depth = 1 + static_cast<int>(rng.below(6));
+                const int vdepth = static_cast<int>(rng.below(depth)); // victim: vdepth blocks below the tip
+                CBlockIndex *first, *victim;
+                FlatFilePos vpos;
+                int tip_h;
+                {
+                    LOCK(cs_main);
+                    CBlockIndex* t0 = n.chainman->ActiveChain().Tip();
+                    tip_h = t0->nHeight;
+                    first = t0->GetAncestor(tip_h - depth + 1);
+                    victim = t0->GetAncestor(tip_h - vdepth);
+                    vpos = victim->GetBlockPos();
+                }
+                const size_t vsize = ::GetSerializeSize(TX_WITH_WITNESS(*gen.Get(victim->GetBlockHash()).block));
+                BlockValidationState st;
+                if (!cs.InvalidateBlock(st, first)) throw std::runtime_error("corruptconnect: InvalidateBlock failed");
+                {
+                    LOCK(cs_main);
+                    if (n.chainman->ActiveChain().Height() != tip_h - depth) throw std::runtime_error("corruptconnect: blocks not disconnected");
+                }
+                // region: 0 tx bytes, 1 header, 2 magic, 3 size field
+                const uint64_t pick = rng.below(100);
+                const int region = pick < 70 ? 0 : pick < 85 ? 1 : pick < 95 ? 2 : 3;
+                uint64_t off; // relative to payload start
+                switch (region) {
+                case 0: off = 80 + rng.below(vsize - 80); break;
+                case 1: off = rng.below(80); break;
+                default: off = 0; break;
+                }
+                const uint64_t file_off = region == 2 ? vpos.nPos - 8 + rng.below(4) : region == 3 ? vpos.nPos - 4 + rng.below(4) : vpos.nPos + off;
+                const std::string path = fs::PathToString(n.chainman->m_blockman.GetBlockPosFilename(vpos));
+                int fd = ::open(path.c_str(), O_RDWR | O_CLOEXEC);
+                unsigned char ob = 0;
+                if (fd < 0 || ::pread(fd, &ob, 1, file_off) != 1) throw std::runtime_error("corruptconnect: cannot read block file");
+                const unsigned char nb = ob ^ static_cast<unsigned char>(1u << rng.below(8));
+                if (::pwrite(fd, &nb, 1, file_off) != 1) throw std::runtime_error("corruptconnect: cannot write block file");
+                // reconnect attempt
+                {
+                    LOCK(cs_main);
+                    cs.ResetBlockFailureFlags(first);
+                    n.chainman->RecalculateBestHeader(); // as the reconsiderblock RPC does
+                }
+                BlockValidationState st2;
+                const bool abc_ok = cs.ActivateBestChain(st2);
+                bool connected;
+                int after_h;
+                {
+                    LOCK(cs_main);
+                    connected = n.chainman->ActiveChain().Contains(*victim);
+                    after_h = n.chainman->ActiveChain().Height();
+                }
+                const size_t fatal = n.notif.fatal.size();
+                const std::string fatal_msg = fatal ? n.notif.fatal.front() : "";
+                // restore and let the node finish
+                if (::pwrite(fd, &ob, 1, file_off) != 1) throw std::runtime_error("corruptconnect: cannot restore block file");
+                ::close(fd);
+                n.notif.fatal.clear();
+                {
+                    LOCK(cs_main);
+                    cs.ResetBlockFailureFlags(first);
+                    n.chainman->RecalculateBestHeader(); // as the reconsiderblock RPC does
+                }
+                BlockValidationState st3;
+                const bool abc2 = cs.ActivateBestChain(st3);
+                int final_h;
+                {
+                    LOCK(cs_main);
+                    final_h = n.chainman->ActiveChain().Height();
+                }
+                static const char* RN[] = {"tx", "header", "magic", "size"};
+                vh::log().rec(vh::J().u("case", c).i("trial", t).str("region", RN[region]).i("depth", depth).i("victim_height", tip_h - vdepth).u("off", off).u("block_size", vsize)
+                                  .b("xor", o.use_xor).b("abc_ok", abc_ok).b("connected", connected).i("height_after", after_h).u("fatal", fatal).str("fatal_msg", fatal_msg)
+                                  .str("state", st2.ToString()).b("restored", abc2 && final_h == tip_h && n.notif.fatal.empty()).str("sig", std::to_string(c) + "/" + std::to_string(t)));
+                if (!(abc2 && final_h == tip_h)) throw std::runtime_error("corruptconnect: chain did not return to its tip after the byte was restored");
+                vh::log().obs(std::string("connect_attempts_") + RN[region]);
+            }
+            n.Shutdown();
+        }
+        fs::remove_all(o.dir);
+    }
     return 0;
 }
 
